@@ -124,6 +124,103 @@ func rangeArithmeticRules(r *Report, name string, f *ssa.Function) {
 			}
 		}
 	}
+	if !(okAccept && okRec && evaluable >= 2) {
+		// second reading: run the code from the second parse to the recorded pair for each grid point
+		// (the guards may sit behind merges of several arms, e.g. the results of a helper with early
+		// returns; a condition that is not arithmetic -- a parse error, a comma-ok -- takes the one
+		// branch from which the pair is still recorded in this round)
+		if pi, isI := parsed[1].(ssa.Instruction); isI && pi.Block() != pair.Block() && reachesAvoiding(pi.Block(), pair.Block(), nil) {
+			start := pi.Block()
+			// the parses succeeded: their error results are nil
+			parseErrNil := func(ev *miniEval) func(ssa.Value) (bool, bool) {
+				var isNil func(v ssa.Value, d int) (bool, bool)
+				isNil = func(v ssa.Value, d int) (bool, bool) {
+					if d > 20 {
+						return false, false
+					}
+					switch x := v.(type) {
+					case *ssa.Const:
+						return x.IsNil(), true
+					case *ssa.Extract:
+						if c, isC := x.Tuple.(*ssa.Call); isC && x.Index == 1 && (calleeName(c) == "strconv.Atoi" || calleeName(c) == "strconv.ParseInt") {
+							return true, true
+						}
+					case *ssa.Phi:
+						if k, picked := ev.pick[x]; picked {
+							return isNil(x.Edges[k], d+1)
+						}
+					}
+					return false, false
+				}
+				return func(v ssa.Value) (bool, bool) {
+					bo, isB := v.(*ssa.BinOp)
+					if !isB || (bo.Op != token.EQL && bo.Op != token.NEQ) || !isErrorType(bo.X.Type()) {
+						return false, false
+					}
+					other := bo.X
+					if k, isK := bo.X.(*ssa.Const); isK && k.IsNil() {
+						other = bo.Y
+					} else if k, isK := bo.Y.(*ssa.Const); !isK || !k.IsNil() {
+						return false, false
+					}
+					n, ok := isNil(other, 0)
+					return n == (bo.Op == token.EQL), ok
+				}
+			}
+			wAccept, wRec, wBad := true, true, ""
+			for _, a := range grid {
+				for _, b := range grid {
+					ev := &miniEval{leaf: func(v ssa.Value) (int64, bool) {
+						switch {
+						case v == parsed[0]:
+							return a, true
+						case v == parsed[1]:
+							return b, true
+						case isSize(v):
+							return S, true
+						}
+						return 0, false
+					}}
+					ev.pick = map[*ssa.Phi]int{}
+					ev.bleaf = parseErrNil(ev)
+					reached, okW := ev.walk(start, pair.Block(), func(iff *ssa.If) int {
+						t := reachesAvoiding(iff.Block().Succs[0], pair.Block(), start)
+						e := reachesAvoiding(iff.Block().Succs[1], pair.Block(), start)
+						switch {
+						case t && !e:
+							return 0
+						case e && !t:
+							return 1
+						}
+						return -1
+					})
+					want := !(a > b || a >= S)
+					if !okW || reached != want {
+						wAccept = false
+						wBad = fmt.Sprintf("first=%d last=%d size=%d: accepted=%v decided=%v, want %v", a, b, S, reached, okW, want)
+						continue
+					}
+					if want && rec[0] != nil && rec[1] != nil {
+						r0, ok0 := ev.Int(rec[0])
+						r1, ok1 := ev.Int(rec[1])
+						wantEnd := b
+						if wantEnd > S-1 {
+							wantEnd = S - 1
+						}
+						if !ok0 || !ok1 || r0 != a || r1 != wantEnd {
+							wRec = false
+							wBad = fmt.Sprintf("first=%d last=%d size=%d: recorded (%d,%d) evaluable=%v/%v, want (%d,%d)", a, b, S, r0, r1, ok0, ok1, a, wantEnd)
+						}
+					}
+				}
+			}
+			if wAccept && wRec && rec[0] != nil && rec[1] != nil {
+				okAccept, okRec, evaluable = true, true, 2
+			} else if wBad != "" {
+				bad += "; run from the second parse: " + wBad
+			}
+		}
+	}
 	r.Decide("flow", key("a range is accepted exactly when first <= last and first < size"), okAccept && evaluable >= 2, "the guards in front of the recorded pair agree with (first > last || first >= size) on the whole grid", "the acceptance test of a byte range differs from the specification ("+bad+"): a one-byte range or a range at the last byte is refused with 416, or an unsatisfiable one is served", pair.Pos())
 	r.Decide("flow", key("the recorded pair is (first, min(last, size-1))"), okRec && okAccept, "evaluated on the grid", "what is recorded for an accepted range is not (first, min(last, size-1)) ("+bad+"): the slice / read that follows goes past the content or misses its last byte", pair.Pos())
 
@@ -178,12 +275,17 @@ func rangeArithmeticRules(r *Report, name string, f *ssa.Function) {
 				uses = append(uses, use{"the read buffer holds last-first+1 octets", x.Len, func(a, b int64) int64 { return b - a + 1 }, x.Pos()})
 			}
 		case *ssa.Call:
-			if calleeName(x) == "(*os.File).ReadAt" {
-				uses = append(uses, use{"the file is read at the first position", x.Call.Args[2], func(a, b int64) int64 { return a }, x.Pos()})
+			if cn := calleeName(x); cn == "(*os.File).ReadAt" || cn == "(io.ReaderAt).ReadAt" {
+				// (the file may be held as an io.ReaderAt: an invoke has no receiver among its arguments)
+				raArgs := x.Call.Args
+				if !x.Call.IsInvoke() {
+					raArgs = raArgs[1:]
+				}
+				uses = append(uses, use{"the file is read at the first position", raArgs[1], func(a, b int64) int64 { return a }, x.Pos()})
 				// ReadAt fills the whole slice it is given: that slice has exactly the part's length,
 				// whatever was read before (a scratch buffer kept from a longer part reads too much)
 				exact := true
-				for _, l := range resolveAll(x.Call.Args[1]) {
+				for _, l := range resolveAll(raArgs[0]) {
 					switch y := l.(type) {
 					case *ssa.MakeSlice:
 						uses = append(uses, use{"the slice handed to ReadAt holds last-first+1 octets", y.Len, func(a, b int64) int64 { return b - a + 1 }, x.Pos()})
